@@ -15,6 +15,7 @@ import (
 	"github.com/cloudwego/hertz/pkg/route"
 
 	"verifsim/core"
+	"verifsim/pollstub"
 	simstd "verifsim/standard"
 	"verifsim/wire"
 )
@@ -50,6 +51,10 @@ type SrvOpts struct {
 	ReadTimeout time.Duration
 	IdleTimeout time.Duration
 	Configure   func(o *config.Options)
+	// ReturnToTransport: a transporter whose name is not "standard" keeps IdleTimeout == 0, so the
+	// HTTP/1 loop returns to the transport after every request; the harness re-enters
+	// Engine.Serve whenever the connection is readable again (what netpoll's OnRequest does).
+	ReturnToTransport bool
 }
 
 // Srv is the real route.Engine on a listener-less stub transporter; every
@@ -76,6 +81,10 @@ func NewSrv(ep *core.Episode, nw *core.Net, o SrvOpts) *Srv {
 		o.BufSize = 4096
 	}
 	opts.ReadBufferSize = o.BufSize
+	if o.ReturnToTransport {
+		opts.TransporterNewer = pollstub.NewStub
+		opts.IdleTimeout = 0
+	}
 	if o.Configure != nil {
 		o.Configure(opts)
 	}
@@ -103,6 +112,7 @@ type SrvConn struct {
 	PanicVal interface{}
 	PanicStk string
 	Rx       []byte // everything the server wrote, as received by the peer
+	Serves   int    // how often Engine.Serve was entered for this connection
 }
 
 // Connect creates a connection and the task that serves it.
@@ -119,7 +129,18 @@ func (s *Srv) Connect(name string) *SrvConn {
 			}
 		}()
 		conn := standard.NewVerifConn(a, s.Opt.BufSize)
-		c.Err = s.Eng.Serve(context.Background(), conn)
+		for {
+			c.Serves++
+			c.Err = s.Eng.Serve(context.Background(), conn)
+			if !s.Opt.ReturnToTransport || c.Err != nil || a.IsClosed() {
+				break
+			}
+			// back in the "transport": wait until there is something to read, then serve again
+			if _, err := conn.Peek(1); err != nil {
+				conn.Close()
+				break
+			}
+		}
 		c.Returned = true
 	})
 	return c
